@@ -105,8 +105,10 @@ def check_api(ctx, case):
             return
 
 
-def _ref_signed_tx(plan):
-    """Serialise and sign the plan with the reference only."""
+def _ref_signed_tx(plan, hash_types=None, digest_of=None):
+    """Serialise and sign the plan with the reference only. hash_types: {input index: [hash type per signature, in key
+    order]} (default SIGHASH_ALL); digest_of: {input index: other input index} - the signatures of that input are made
+    over the digest of the OTHER input (a transaction nobody may accept)."""
     from props import txplan
     from ref import wire, ec
     vin = []
@@ -116,15 +118,18 @@ def _ref_signed_tx(plan):
     tx = wire.Tx(plan['version'], vin, vout, plan['locktime'])
     for k, inp in enumerate(plan['inputs']):
         po = txplan.prevout(inp)
-        dg = _ref_digest(tx, k, inp)
         pubs = txplan.input_pubs(inp)
         by_pub = {txplan.pub_bytes(d, inp['compressed']): d for d in inp['secrets']}
         signer_pubs = [txplan.pub_bytes(inp['secrets'][s], inp['compressed']) for s in inp['signers']]
         sigs = []
+        hts = (hash_types or {}).get(k) or (hash_types or {}).get(str(k)) or []
+        src = (digest_of or {}).get(k, (digest_of or {}).get(str(k), k))
         for p in pubs:   # signatures in key order, as CHECKMULTISIG requires
             if p in signer_pubs:
+                ht = hts[len(sigs)] if len(sigs) < len(hts) else 1
+                dg = _ref_digest(tx, src, plan['inputs'][src], ht)
                 r, s = ec.sign(dg, by_pub[p])
-                sigs.append(ec.der_encode(r, s) + b'\x01')
+                sigs.append(ec.der_encode(r, s) + bytes([ht]))
         kind = inp['kind']
         if kind == 'p2pkh':
             tx.vin[k].script_sig = wire.script_build([sigs[0], pubs[0]])
@@ -281,7 +286,73 @@ def check_history(ctx, case):
             return
 
 
-DISPATCH = {'api': check_api, 'parse': check_parse, 'history': check_history}
+def check_merge(ctx, case):
+    """Two signed transactions merged into one (Transaction.merge_transaction / t1 + t2: inputs and outputs joined,
+    everything signed again): every input of the result, wherever it ended up, is signed over - and checked against -
+    the consensus digest of the merged transaction. case: kind=merge, plan, plan2, how 'merge'|'add'"""
+    from props import txplan
+    from ref import wire, interp
+    plan, plan2 = case['plan'], dict(case['plan2'], network=case['plan']['network'])
+    try:
+        ta = txplan.realise(plan, with_private=True)
+        tb = txplan.realise(plan2, with_private=True)
+        ta.sign()
+        tb.sign()
+    except Exception as e:
+        ctx.refusal('merge.setup.%s' % type(e).__name__)
+        return
+    try:
+        if case.get('how') == 'add':
+            t = ta + tb
+        else:
+            ta.merge_transaction(tb)
+            t = ta
+        final = wire.Tx.parse(t.raw())
+    except Exception as e:
+        ctx.refusal('merge.%s' % type(e).__name__)
+        return
+    by_outpoint = {}
+    for inp in plan['inputs'] + plan2['inputs']:
+        by_outpoint[(inp['prev'], inp['n'])] = inp
+    if len(by_outpoint) != len(plan['inputs']) + len(plan2['inputs']):
+        ctx.exclude('merge: the two parts spend the same outpoint')
+        return
+    if len(final.vin) != len(plan['inputs']) + len(plan2['inputs']):
+        raise Discrepancy('merge.input_count', 'merged transaction has %d inputs, the two parts %d + %d' %
+                          (len(final.vin), len(plan['inputs']), len(plan2['inputs'])), case)
+    all_ok = True
+    for k, vin in enumerate(final.vin):
+        inp = by_outpoint.get((vin.prev_hash[::-1].hex(), vin.prev_n))
+        if inp is None:
+            raise Discrepancy('merge.unknown_input', 'input %d of the merged transaction spends an outpoint of neither '
+                              'part' % k, case)
+        cur = dict(inp, seq=vin.sequence)
+        want = _ref_digest(final, k, cur)
+        try:
+            got = t.signature_hash(k, 1, t.inputs[k].witness_type)
+        except Exception as e:
+            raise Discrepancy('merge.digest.raises:' + inp['kind'], 'signature_hash(%d) raised %r' % (k, e), case)
+        if got != want:
+            ctx.disc('merge.digest.mismatch:' + inp['kind'], 'merged transaction, input %d (%s): library digest %s, '
+                     'consensus digest %s' % (k, inp['kind'], got.hex(), want.hex()), case)
+            return
+        ok, why = interp.verify_input(final, k, txplan.prevout(inp)['spk'], inp['value'])
+        if not ok and why not in ('unsatisfied locktime', 'unsatisfied sequence'):
+            all_ok = False
+            ctx.disc('merge.e2e.invalid:' + inp['kind'], 'merged and re-signed transaction: input %d (%s) is rejected by '
+                     'the consensus interpreter: %s' % (k, inp['kind'], why), case)
+            return
+    try:
+        v = bool(t.verify())
+    except Exception as e:
+        raise Discrepancy('merge.verify.raises', 'verify() of the merged transaction raised %r' % e, case)
+    if all_ok and not v:
+        ctx.disc('merge.verify_false', 'every input of the merged transaction is valid under the consensus digest, '
+                 'verify() says False', case)
+    ctx.count()
+
+
+DISPATCH = {'api': check_api, 'parse': check_parse, 'history': check_history, 'merge': check_merge}
 
 
 def probes(ctx):
@@ -369,6 +440,16 @@ def run(ctx):
             ctx.sample(case)
         check_history(ctx, case)
     ctx.run_given('history', hist, prop_hist, ctx.scale(60, 1500))
+
+    merge = st.fixed_dictionaries({'kind': st.just('merge'), 'plan': txplan.plans(max_inputs=2, max_outputs=2),
+                                   'plan2': txplan.plans(max_inputs=2, max_outputs=2),
+                                   'how': st.sampled_from(['merge', 'add'])})
+
+    def prop_merge(case):
+        ctx.klass('merge.cases')
+        ctx.nt(('merge', case['plan'], case['plan2'], case['how']))
+        check_merge(ctx, case)
+    ctx.run_given('merge', merge, prop_merge, ctx.scale(12, 600))
 
     # many-output shapes (CompactSize boundary in hashOutputs / legacy preimage): one per shard
     if ctx.shard < 6:
